@@ -4,12 +4,14 @@ import TexelVerif.Drv.Uci
 import TexelVerif.Drv.Mate
 import TexelVerif.Drv.NN
 import TexelVerif.Drv.Time
+import TexelVerif.Drv.Book
 /-! Line-protocol driver: one operation per stdin line, one canonical reply line.
     Imports model files only (no proofs, no Mathlib), so it links as a `lean_exe`. -/
 
 structure DrvState where
   tt : TT.Table := default
   nn : Drv.NN.State := {}
+  pgbook : Drv.Book.St := {}
 
 def dispatch (st : DrvState) (line : String) : DrvState × String :=
   let toks := (line.trimAscii.toString.splitOn " ").filter (· ≠ "")
@@ -20,6 +22,7 @@ def dispatch (st : DrvState) (line : String) : DrvState × String :=
   | "mate" :: args => (st, Drv.Mate.step args)
   | "nn" :: args => let (t, o) := Drv.NN.step st.nn args; ({ st with nn := t }, o)
   | "tm" :: args => (st, Drv.Time.step args)
+  | "pgbook" :: args => let (b, o) := Drv.Book.step st.pgbook args; ({ st with pgbook := b }, o)
   | _ => (st, "bad-op")
 
 partial def loop (h : IO.FS.Stream) (out : IO.FS.Stream) (st : DrvState) : IO Unit := do
